@@ -175,7 +175,7 @@ impl ProgressBar {
     pub fn set_tab_width(&self, tab_width: usize) {
         let mut state = self.state();
         state.set_tab_width(tab_width);
-        state.draw(true, Instant::now()).unwrap();
+        let _ = state.draw(true, Instant::now());
     }
 
     /// Spawns a background thread to tick the progress bar
